@@ -354,7 +354,9 @@ func vsimCheckSegments(r *sim.Run, mode string, img []byte, din *ref.Demux, refI
 			}
 			for ti := range inTracks {
 				ss := d.TrackSamples(uint32(ti + 1))
-				if isRef[ti] && len(ss) > 0 && !ss[0].Sync {
+				// (an input that does not begin with a sync sample cannot both keep every sample and start its first
+				// segment with one: the first segment is exempt then)
+				if isRef[ti] && len(ss) > 0 && !ss[0].Sync && !(len(got[ti]) == 0 && len(inTracks[ti].Samples) > 0 && !inTracks[ti].Samples[0].Sync) {
 					r.Violate("c11-segment-start", "%s: media segment %d does not start with a sync sample of the reference track", who, sf.nr)
 				}
 				for _, s := range ss {
